@@ -22,6 +22,11 @@ Findings on the pristine tree (both replayed natively, repair in proposed_fixes/
   (created 10:30:00.5Z, created_after 10:30:00.25 -> excluded; created_before 10:30:00.25 -> included).
 * F25  a token response that is not valid UTF-8 escapes `fetch_access_token` as UnicodeDecodeError (outside the
   client family; the Graph requests already decode with errors="replace").
+
+Round 5: dict comprehensions / tuple targets over symbolic sequences; `datetime.tzinfo`, `replace(tzinfo=None)` (wall-clock
+reading: instant + unconstrained offset) and `astimezone` (same instant) on the (instant, aware) abstraction, so timestamp
+normalisation helpers in front of the bound comparisons are decided instead of havoc'd; path pruning resets the solver core
+per query (`C18Executor.feasible`).  The replayer's fake library serves hidden (trimmed) children: short / empty non-final pages.
 """
 import z3
 
@@ -380,6 +385,48 @@ def m_strip(ex, st, args, kwargs, node):
     return [(st, VStr(z3.String(fresh_name("strip"))))]
 
 
+DAY_US = 86400 * 1000000
+
+
+def _split_aware(ex, st, t):
+    """The two cases of a datetime: [(state assuming aware, True), (state assuming naive, False)] (feasible ones only)."""
+    out = []
+    for flag in (True, False):
+        cond = DT.aware(t) if flag else z3.Not(DT.aware(t))
+        if ex.feasible(st.pc, cond):
+            out.append((st.fork().assume(cond), flag))
+    return out
+
+
+def m_dt_replace(ex, st, obj, args, kwargs, node):
+    """datetime.replace(tzinfo=None): a naive datetime stays as it is; an aware one becomes its WALL-CLOCK reading in its
+    own zone = instant + utcoffset (the offset is not part of the abstraction: any value with |offset| < 24 h), naive.
+    Every other use of replace is unmodelled (tagged)."""
+    if args or set(kwargs) != {"tzinfo"} or not isinstance(kwargs["tzinfo"], VNoneT):
+        return ex.havoc_call(st, "datetime.replace", list(args) + list(kwargs.values()), node)
+    out = []
+    for (s2, aware) in _split_aware(ex, st, obj.t):
+        if not aware:
+            out.append((s2, obj))
+            continue
+        wall = z3.Int(fresh_name("wallclock_us"))
+        s2.assume(z3.And(wall - DT.us(obj.t) > -DAY_US, wall - DT.us(obj.t) < DAY_US))
+        out.append((s2, dt_val(wall, z3.BoolVal(False))))
+    return out
+
+
+def m_dt_astimezone(ex, st, obj, args, kwargs, node):
+    """datetime.astimezone([tz]) of an aware datetime: the same instant in another zone (aware).  A naive one is read in
+    the system's local zone: unmodelled (tagged)."""
+    out = []
+    for (s2, aware) in _split_aware(ex, st, obj.t):
+        if aware:
+            out.append((s2, dt_val(DT.us(obj.t), z3.BoolVal(True))))
+        else:
+            out.extend(ex.havoc_call(s2, "datetime.astimezone of a naive datetime (system local zone)", list(args) + list(kwargs.values()), node))
+    return out
+
+
 def install_string_models(reg):
     reg.ext_models["os.path.splitext"] = m_splitext
     reg.ext_models["str.strip"] = m_strip
@@ -388,6 +435,8 @@ def install_string_models(reg):
     reg.ext_models["str.ljust"] = m_ljust
     reg.ext_models["fnmatch.fnmatch"] = m_fnmatch
     reg.ext_models["datetime.datetime.fromisoformat"] = m_fromisoformat
+    reg.method_models[("datetime", "replace")] = m_dt_replace
+    reg.method_models[("datetime", "astimezone")] = m_dt_astimezone
 
 
 # sorts of the listing layer (functions over them are declared in Part B / C below)
@@ -661,6 +710,21 @@ class C18Executor(Executor):
     def __init__(self, *a, unshaped_keys=(), **kw):
         super().__init__(*a, **kw)
         self.unshaped_keys = tuple(unshaped_keys)
+
+    def feasible(self, pc, extra=None):
+        """Path pruning starts from a clean solver core for every query (`reset` keeps the timeout parameter).  Measured on a
+        `matches` whose date bounds go through an unmodelled helper (hundreds of prunings with havoc'd comparisons): z3's
+        sequence theory, carrying internal state over from earlier push/pop rounds, sat for minutes inside one trivially
+        satisfiable pruning query without honouring the 2 s timeout (0.02 s on a fresh solver).  The answer to a pruning
+        query now depends on that query alone, not on the history of the path exploration."""
+        self.feas.reset()
+        return super().feasible(pc, extra)
+
+    def get_attr(self, st, base, attr, node):
+        if isinstance(base, VExt) and base.sort == "datetime" and attr == "tzinfo":
+            # None exactly for a naive datetime; otherwise some tzinfo object (opaque)
+            return [(s2, VExt("tzinfo") if aware else NONE) for (s2, aware) in _split_aware(self, st, base.t)]
+        return super().get_attr(st, base, attr, node)
 
     def apply_contract(self, st, c, args, kwargs, node):
         if c.target.endswith("::SharePointRestClient._get_json") and len(args) >= 2 and self.inline_depth == 0:
@@ -1077,7 +1141,7 @@ class C18Executor(Executor):
     def sym_comp(self, n, elt, st):
         """Comprehension `elt for x in SEQ [if c ...]` over a symbolic sequence -> (state, seq, elem(j), keep(j)) or None.
         The element and the conditions must evaluate without forking or raising."""
-        if len(n.generators) != 1 or not isinstance(n.generators[0].target, ast_Name):
+        if len(n.generators) != 1:
             return None
         g = n.generators[0]
         its = self.ev(g.iter, st.fork())
@@ -1091,7 +1155,10 @@ class C18Executor(Executor):
         s2.frames.append(fr)
         mark = len(self.sinks[-1])
         pclen = len(s2.pc)
-        s2.bind(g.target.id, seq.elem(i))
+        bound = self.assign(g.target, seq.elem(i), s2)       # plain name or tuple target (`for k, v in d.items()`)
+        if len(bound) != 1 or len(self.sinks[-1]) != mark:
+            self.unsupported(n, "comprehension target does not bind uniquely")
+        s2 = bound[0]
         keep = []
         for cnd in g.ifs:
             rc = self.ev(cnd, s2)
@@ -1125,6 +1192,19 @@ class C18Executor(Executor):
                 return [(s3, VSeq(seq.length, elem, kind))]
             return [(s3, VSymBag(seq.length, elem, keep))]
         return super().e_ListComp(n, st)
+
+    def e_DictComp(self, n, st):
+        """{k: v for ... in SEQ if c} over a symbolic sequence: key, value and conditions are evaluated (they must neither fork
+        nor raise); the result is a fresh dict whose content is not tracked (heap kind `unk`: reading from it is an unmodelled,
+        tagged operation).  The listing contracts never look into such dicts (custom columns)."""
+        pair = _ast.Tuple(elts=[n.key, n.value], ctx=_ast.Load())
+        _ast.copy_location(pair, n)
+        _ast.fix_missing_locations(pair)
+        r = self.sym_comp(n, pair, st)
+        if r is not None:
+            s3 = r[0]
+            return [(s3, VRef(s3.alloc(HeapObj("unk", None, "dict", True), self.refs)))]
+        return super().e_DictComp(n, st)
 
     def e_SetComp(self, n, st):
         r = self.sym_comp(n, n.elt, st)
